@@ -26,6 +26,8 @@ type c20Case struct {
 	Members int `json:"gzip_members,omitempty"`
 	// AfterFailure: the response is filtered right after another one whose body could not be read to its end
 	AfterFailure bool `json:"after_failed_response,omitempty"`
+	// Pad: that many further bytes ('p') follow Body (bodies of several MiB without storing them in the case)
+	Pad int `json:"pad_bytes,omitempty"`
 }
 
 var c20Markers = []string{"</head", "<link", "<style", "<script"}
@@ -56,6 +58,9 @@ func c20TranscodedOffset(body []byte, i int) int {
 
 func checkC20(c c20Case, rec *Rec) *Violation {
 	const id = "C20"
+	if c.Pad > 0 && c.Pad <= 8<<20 {
+		c.Body = append(append([]byte{}, c.Body...), bytes.Repeat([]byte{'p'}, c.Pad)...)
+	}
 	wire := c.Body
 	hdr := http.Header{}
 	hdr.Set("Content-Type", "text/html")
@@ -158,6 +163,50 @@ func checkC20(c c20Case, rec *Rec) *Violation {
 	}
 	if res.Header.Get("Content-Encoding") != "" {
 		return viol(id, "C20:content-encoding-kept", "Content-Encoding %q still present after the body was re-encoded", res.Header.Get("Content-Encoding"))
+	}
+	// end to end for a share of the cases: the same document served by a web server and fetched through the real proxy
+	if len(c.Body) <= 128*1024 && c.Pad == 0 && hash64(string(c.Body))%4 == 0 {
+		rg := getProxyRig()
+		if rg.err != nil {
+			rec.Label("proxy-stage-unavailable")
+			return nil
+		}
+		path := fmt.Sprintf("/c20-%x.html", hash64(string(c.Body)))
+		pg := proxyPage{body: c.Body, contentType: "text/html"}
+		if c.Gzip {
+			pg.gzipBody = wire
+		}
+		rg.mu.Lock()
+		rg.bodies[path] = pg
+		rg.mu.Unlock()
+		got, hdr2, ferr := rg.fetch(path, proxyAccepts[int(hash64(string(c.Body))/4)%len(proxyAccepts)])
+		rg.mu.Lock()
+		delete(rg.bodies, path)
+		rg.mu.Unlock()
+		if ferr != nil {
+			return viol(id, "C20:harness", "fetch through the proxy: %v", ferr)
+		}
+		before, _, after, found := splitInjected(got)
+		okE2E := false
+		switch label {
+		case "no-marker", "marker-beyond-window":
+			okE2E = !found && bytes.Equal(got, c.Body)
+		case "marker-in-window":
+			okE2E = found && len(before) == i && bytes.Equal(append(append([]byte{}, before...), after...), c.Body)
+		default:
+			okE2E = (!found && bytes.Equal(got, c.Body)) || (found && len(before) == i && bytes.Equal(append(append([]byte{}, before...), after...), c.Body))
+		}
+		if !okE2E {
+			return viol(id, "C20:body-differs:through-proxy:"+label, "body of %d bytes (first marker at %d, gzip=%v) fetched through the proxy: %d bytes come back, tag found=%v at %d; body preview %q",
+				len(c.Body), i, c.Gzip, len(got), found, len(before), clipStr(string(c.Body)))
+		}
+		if cl := hdr2.Get("Content-Length"); cl != "" && cl != fmt.Sprint(len(got)) {
+			return viol(id, "C20:content-length:through-proxy", "Content-Length %s but %d bytes come back", cl, len(got))
+		}
+		if hdr2.Get("Content-Encoding") != "" && found {
+			return viol(id, "C20:content-encoding-kept:through-proxy", "Content-Encoding %q on a filtered response", hdr2.Get("Content-Encoding"))
+		}
+		rec.Label("proxy-end-to-end")
 	}
 	return nil
 }
@@ -263,7 +312,9 @@ func genC20(t *rapid.T) c20Case {
 				"</hea", "<lin", "<styl", "<scrip", "< link", "<\x00link", "</head</head", "<sCRIPT",
 				"<<script", "a<<LINK", "1<</HEAD", "<<<style", "\x1cscript", "\x1clink", "\x1cstyle", "<\x0fhead", "\x1c\x0fhead", "<\x0fHEAD", "<scr\x49pt", "<l\x09nk", "<SCR\u0130PT", "<scr\u0131pt",
 				// ordinary tags that are no markers
-				"<html>", "<body>", "<BODY class=x>", "<!DOCTYPE html>", "<head>", "<div>", "</body>", "<html><body>", "<title>"})
+				"<html>", "<body>", "<BODY class=x>", "<!DOCTYPE html>", "<head>", "<div>", "</body>", "<html><body>", "<title>",
+				// the address of the content script, merely mentioned
+				" //injections.verif.example/content-script.js?x=1 ", "<!-- //injections.verif.example/content-script.js? -->"})
 			body = append(body, m...)
 		}
 	}
@@ -289,6 +340,14 @@ func genC20(t *rapid.T) c20Case {
 		c.Members = rapid.IntRange(2, 4).Draw(t, "members")
 	}
 	c.AfterFailure = chance(t, "after-failed-response", 6)
+	if rare(t, "several-mebibytes", 40) {
+		// a body around and beyond 4 MiB
+		c.Pad = pick(t, "pad", []int{4<<20 - len(c.Body), 4<<20 - len(c.Body) + 1, 4<<20 + 4096, 5 << 20, 1 << 20})
+		if c.Pad < 0 {
+			c.Pad = 4 << 20
+		}
+		c.Gzip = chance(t, "big-gzip", 2) || c.Gzip
+	}
 	return c
 }
 
